@@ -1256,7 +1256,9 @@ class AstEval:
                                 return val
                     finally:
                         if handler.name is not None:
-                            del self.sym_table[handler.name]
+                            # the handler body may have unbound the name already (del, or an
+                            # inner handler using the same name): Python does not complain
+                            self.sym_table.pop(handler.name, None)
                     break
             else:
                 raise err
